@@ -85,6 +85,16 @@ def function_ast(fn):
     return node
 
 
+def frame_function_node(frame):
+    f = frame
+    while f is not None:
+        n = getattr(f, "node", None)
+        if n is not None:
+            return n
+        f = f.parent
+    return None
+
+
 class InterpFunction:
     """A function / lambda defined while interpreting (closure over an interpreter frame)."""
 
@@ -96,10 +106,10 @@ class InterpFunction:
 
 
 class Frame:
-    __slots__ = ("locals", "globals", "parent", "qualname")
+    __slots__ = ("locals", "globals", "parent", "qualname", "node")
 
-    def __init__(self, glob, parent=None, qualname="?"):
-        self.locals, self.globals, self.parent, self.qualname = {}, glob, parent, qualname
+    def __init__(self, glob, parent=None, qualname="?", node=None):
+        self.locals, self.globals, self.parent, self.qualname, self.node = {}, glob, parent, qualname, node
 
     def lookup(self, name):
         f = self
@@ -681,7 +691,7 @@ class Interp:
             raise Inapplicable("call depth")
         if fn is not None:
             glob = fn.__globals__
-            frame = Frame(glob, None, qualname)
+            frame = Frame(glob, None, qualname, node)
             sig = inspect.signature(fn)
             try:
                 ba = sig.bind(*args, **kwargs)
@@ -893,9 +903,25 @@ class Interp:
             return c
         return it
 
+    _FOR_ORDINALS = {}
+
+    def for_ordinal(self, s, frame):
+        """1-based position of this `for` among the for-statements of its function, in source order"""
+        key = id(s)
+        if key not in Interp._FOR_ORDINALS:
+            fn_node = frame_function_node(frame)
+            if fn_node is None:
+                return 0
+            k = 0
+            for node in ast.walk(fn_node):
+                pass
+            fors = sorted((n for n in ast.walk(fn_node) if isinstance(n, ast.For)), key=lambda n: (n.lineno, n.col_offset))
+            for k, n in enumerate(fors, 1):
+                Interp._FOR_ORDINALS[id(n)] = k
+        return Interp._FOR_ORDINALS.get(key, 0)
+
     def s_For(self, s, frame):
-        self._loop_counters[-1] += 1
-        ordinal = self._loop_counters[-1]
+        ordinal = self.for_ordinal(s, frame)
         itv = self.expr(s.iter, frame)
         h = self.loop_hooks.get((frame.qualname, ordinal))
         if h is not None:
